@@ -74,9 +74,49 @@ static void gen_stream(Case &c, GenFile &F) {
 	if (!F.desc.empty()) F.desc += ","; F.desc += b;
 }
 
+// One Stream assembled Block by Block (lzma_block_buffer_encode + hand-made Index): every Block individually with or without
+// the size fields in its header, so that Blocks decoded by worker threads and Blocks that force direct mode alternate inside one
+// Stream (no encoder of the project writes such a Stream; the format allows it).
+static void gen_stream_mixed(Case &c, GenFile &F) {
+	lzma_options_lzma lz; lzma_lzma_preset(&lz, 0); lz.dict_size = 4096u << c.u(5);
+	lzma_filter fl[2] = {{LZMA_FILTER_LZMA2, &lz}, {LZMA_VLI_UNKNOWN, NULL}};
+	lzma_check chk = c.pick({LZMA_CHECK_CRC32, LZMA_CHECK_CRC64, LZMA_CHECK_NONE, LZMA_CHECK_SHA256});
+	unsigned nblocks = 2 + c.small(8); std::string pattern;
+	lzma_stream_flags sf; memset(&sf, 0, sizeof sf); sf.version = 0; sf.check = chk;
+	std::vector<uint8_t> out(LZMA_STREAM_HEADER_SIZE);
+	if (lzma_stream_header_encode(&sf, out.data()) != LZMA_OK) harness_bug("stream header encode");
+	lzma_index *idx = lzma_index_init(NULL); if (!idx) harness_bug("index init");
+	for (unsigned b = 0; b < nblocks; ++b) {
+		Recipe r = draw_recipe(c, c.rare(40) ? (1u << 16) : (1u << 12), lz.dict_size); if (r.len == 0) r.len = 1 + c.u(40);
+		std::vector<uint8_t> plain = expand(r);
+		lzma_block blk; memset(&blk, 0, sizeof blk); blk.version = 1; blk.check = chk; blk.filters = fl;
+		std::vector<uint8_t> buf(lzma_block_buffer_bound(plain.size())); size_t pos = 0;
+		if (lzma_block_buffer_encode(&blk, NULL, plain.data(), plain.size(), buf.data(), &pos, buf.size()) != LZMA_OK) harness_bug("block buffer encode");
+		const uint32_t old_hs = blk.header_size; const lzma_vli comp = blk.compressed_size, unc = blk.uncompressed_size;
+		const bool sizes = c.flag(); pattern += sizes ? 'S' : 'n';
+		std::vector<uint8_t> hdr(buf.begin(), buf.begin() + old_hs);
+		if (!sizes) {
+			blk.compressed_size = LZMA_VLI_UNKNOWN; blk.uncompressed_size = LZMA_VLI_UNKNOWN;
+			if (lzma_block_header_size(&blk) != LZMA_OK) harness_bug("block header size"); hdr.assign(blk.header_size, 0);
+			if (lzma_block_header_encode(&blk, hdr.data()) != LZMA_OK) harness_bug("block header encode");
+		}
+		const lzma_vli unpadded = hdr.size() + comp + lzma_check_size(chk);
+		out.insert(out.end(), hdr.begin(), hdr.end()); out.insert(out.end(), buf.begin() + old_hs, buf.begin() + pos);   // data + padding + check
+		if (lzma_index_append(idx, NULL, unpadded, unc) != LZMA_OK) harness_bug("index append");
+		F.plain.insert(F.plain.end(), plain.begin(), plain.end());
+	}
+	size_t isz = (size_t)lzma_index_size(idx), at = out.size(), ipos = 0; out.resize(at + isz + LZMA_STREAM_HEADER_SIZE);
+	if (lzma_index_buffer_encode(idx, out.data() + at, &ipos, isz) != LZMA_OK) harness_bug("index encode");
+	sf.backward_size = isz; if (lzma_stream_footer_encode(&sf, out.data() + at + isz) != LZMA_OK) harness_bug("footer encode");
+	lzma_index_end(idx, NULL);
+	F.bytes.insert(F.bytes.end(), out.begin(), out.end()); F.blocks += nblocks; ++F.streams;
+	char d[160]; snprintf(d, sizeof d, "{\"sizes\":\"%s\",\"blocks\":%u,\"dict\":%u,\"check\":%d}", pattern.c_str(), nblocks, lz.dict_size, (int)chk);
+	if (!F.desc.empty()) F.desc += ","; F.desc += d;
+}
+
 static GenFile gen_file(Case &c) {
 	GenFile F; unsigned ns = 1 + c.small(2);
-	for (unsigned i = 0; i < ns; ++i) { gen_stream(c, F); if (i + 1 < ns && c.flag()) F.bytes.insert(F.bytes.end(), 4 * c.u(4), 0); }
+	for (unsigned i = 0; i < ns; ++i) { if (c.rare(64)) { gen_stream_mixed(c, F); vg::count("stream_with_and_without_size_fields_mixed"); } else gen_stream(c, F); if (i + 1 < ns && c.flag()) F.bytes.insert(F.bytes.end(), 4 * c.u(4), 0); }
 	return F;
 }
 
